@@ -165,10 +165,11 @@ for _name, _doc in list(EXTRA_SKELETONS.items()) + [("rest", SKELETONS["rest"])]
         _d = indented(_doc, _ind)
         for _pos in range(len(_d) + 1):
             _P3.append((_name, _ind, _pos, _d))
-_P3Q = set(random.Random(SEED + 1).sample(range(len(_P3)), 20))
+_P3S = [i for i, (_n0, _i0, _p0, _d0) in enumerate(_P3) if len(_d0) <= 120]  # quick tier: docstrings of <= 120 characters (a symbolic hole in a longer text costs > 300 CPU-seconds)
+_P3Q = set(random.Random(SEED + 1).sample(_P3S, 20))
 for _i, (_name, _ind, _pos, _d) in enumerate(_P3):
-    _q = _i in _P3Q or _pos == len(_d) or _pos == 0
-    ob("C15", "P3.absorb.%s.i%d.ins%03d" % (_name, _ind, _pos), {"c": CP}, tier="quick" if _q else "thorough", T=300,
+    _q = _i in _P3Q or ((_pos == len(_d) or _pos == 0) and len(_d) <= 120)
+    ob("C15", "P3.absorb.%s.i%d.ins%03d" % (_name, _ind, _pos), {"c": CP}, tier="quick" if _q else "thorough", T=300 if len(_d) <= 120 else 900,
        funcs=["cdd.shared.docstring_parsers.parse_docstring", "cdd.shared.docstring_parsers._parse_phase_rest", "cdd.shared.docstring_parsers._set_param_values",
               "cdd.shared.docstring_parsers._fill_doc_with_afterward"],
        bound="%s docstring with footer (indent %d) and ANY code point inserted at offset %d: no header/footer prose inside any typ/default" % (_name, _ind, _pos))(_absorb(_d, _pos))
@@ -203,7 +204,7 @@ for _name, _doc in EXTRA_SKELETONS.items():
     if "Footerprose notes" not in _doc:
         continue
     for _ind in (0, 4):
-        ob("C15", "P3.plain.%s.i%d" % (_name, _ind), {"c": PR}, pre="c != 46 and c != 58", T=300,
+        ob("C15", "P3.plain.%s.i%d" % (_name, _ind), {"c": PR}, enum=True, pre="c != 46 and c != 58", T=300,
            funcs=["cdd.shared.docstring_parsers.parse_docstring", "cdd.shared.defaults_utils.extract_default"],
            bound="the %s docstring with footer at indent %d, one footer word carrying ANY printable character except '.' and ':' (a colon turns a NumPy-style line into a name : type entry by that format's own grammar): the parser accepts it and no header/footer prose is inside any typ/default" % (_name, _ind),
            )(_plain(indented(_doc, _ind)))
@@ -323,3 +324,50 @@ for _style, _doc in SKELETONS.items():
         ob("C15", "P5.header.%s.i%d" % (_style, _ind), {"c": CP}, tier="quick", T=200, funcs=FUNCS,
            bound="%s skeleton indented %d with ANY non-blank code point (not ':' or '-') inserted inside a parameter description: the header part is exactly the two header lines, "
                  "none of them inside the section part" % (_style, _ind))(_header_is_header(_d, _pos, ["Header line.", "More header."]))
+
+
+# --- P6: header prose that LOOKS like markup (sub-title underlines, rules, tables, bullet lists, literal blocks) survives the split and the conversion ------------------
+MARKUP = (("Details", "-------"), ("=========",), ("+-----+-----+", "| a   | b   |", "+-----+-----+"), ("* item one", "* item two"), ("Example::", "", "    code()"), (".. note:: take care",),
+          ("~~~~~~~~~~",), ("-- dashed aside --",), ("Overview", "--------", "More words."), ("----------",), ("key - value",), ("a > b and c < d",))
+
+
+def header_markup(src, dst, m, indent_level, carry_original, footer):
+    import cdd.docstring.emit
+    from cdd.shared.docstring_parsers import parse_docstring
+    from cdd.shared.docstring_utils import parse_docstring_into_header_args_footer
+
+    styles = ("rest", "google", "numpydoc")
+    lines = ["Summary line here.", ""] + list(MARKUP[m]) + ["", "Closing sentence of the header."]
+    doc = "\n".join(lines) + "\n\n" + SECTIONS[styles[src]] + ("\nFooterprose notes.\n" if footer else "")
+    h, a, f = parse_docstring_into_header_args_footer(doc, doc)
+    if (h or "") + (a or "") + (f or "") != doc:
+        return "header + section + footer do not concatenate back to the docstring"
+    want = [ln.strip() for ln in lines if ln.strip()]
+    got = [ln.strip() for ln in (h or "").split("\n") if ln.strip()]
+    if got != want:
+        return "the header part is %r, expected %r" % (got, want)
+    try:
+        ir = parse_docstring(doc)
+    except Exception as e:
+        return "a well-formed docstring whose header contains markup is rejected: %s: %s" % (type(e).__name__, e)
+    if carry_original:
+        ir["_internal"] = {"original_doc_str": doc}
+    try:
+        out = cdd.docstring.emit.docstring(ir, docstring_format=styles[dst], word_wrap=False, indent_level=indent_level)
+    except Exception as e:
+        return "conversion raised %s: %s" % (type(e).__name__, e)
+    at = 0
+    for t in want:
+        j = out.find(t, at)
+        if j < 0:
+            return "header line %r is missing (or out of order) in the docstring converted to %s" % (t, styles[dst])
+        at = j + len(t)
+    return ""
+
+
+for _m in range(len(MARKUP)):
+    ob("C15", "P6.header_markup.m%02d" % _m, {"src": R(0, 2), "dst": R(0, 2), "m": R(_m, _m), "indent_level": R(0, 2), "carry_original": BOOL, "footer": BOOL}, enum=True, T=600,
+       funcs=_P4_FUNCS + ["cdd.shared.docstring_utils._get_token_start_idx", "cdd.shared.docstring_utils._get_token_last_idx"],
+       bound="docstring whose multi-paragraph header contains the markup lines %r, a generated section in ANY source style, footer or not; split, then converted to ANY style at indent_level 0..2 "
+             "with or without the original docstring carried (solver-enumerated): the three parts concatenate back, the header part is exactly the header, every header line is present, in order"
+             % (MARKUP[_m],))(header_markup)
